@@ -129,6 +129,10 @@ def cases(draw, tier):
             val = "c:" + val.replace("-", "")
         comment[k] = val
     return {"names": names, "cols": cols, "comment": comment,
+            "long": draw(st.sampled_from(
+                [None] * 10 + [["comment", 300], ["comment", 600],
+                               ["comment", 7000], ["wide", 400],
+                               ["wide", 1000]])),
             "mode": draw(st.sampled_from(MODES)),
             "fmt": draw(st.sampled_from(FORMATS)),
             "sysinfo": draw(st.booleans()),
@@ -186,7 +190,35 @@ def _float_tol(fmt, v):
     return 0.5000001 * 10.0 ** (math.floor(math.log10(abs(v))) - 10)
 
 
+def expand(case):
+    """Long header lines: a comment value of several thousand characters (a
+    list of station ids), or hundreds of columns (an ensemble) whose joined
+    names run over several thousand characters."""
+    lg = case.get("long")
+    if not lg:
+        return case
+    case = dict(case)
+    if lg[0] == "comment":
+        case["comment"] = dict(case["comment"])
+        case["comment"]["stations_list"] = ", ".join(
+            f"id:{410000 + k}" for k in range(lg[1]))
+    else:
+        nrow = len(case["cols"][0]["values"])
+        names, cols = list(case["names"]), list(case["cols"])
+        for k in range(lg[1]):
+            nm = f"ens_{k:04d}"
+            if nm in names:
+                continue
+            names.append(nm)
+            cols.append({"kind": "float",
+                         "values": [((k * 7 + r * 3) % 11 - 2) * 0.25
+                                    for r in range(nrow)]})
+        case["names"], case["cols"] = names, cols
+    return case
+
+
 def oracle(case):
+    case = expand(case)
     df = build_frame(case)
     base = OUT / "tmp"
     base.mkdir(parents=True, exist_ok=True)
@@ -206,6 +238,8 @@ def run(case, df, tmp):
         kw["author"] = case["author"]
     labels = [f"mode:{mode}", f"fmt:{case['fmt']}",
               f"index:{case.get('index', 'default')}"]
+    if case.get("long"):
+        labels.append(f"long-header-line:{case['long'][0]}")
     comment = dict(case["comment"])
     if mode == "archive":
         zpath = tmp / "arch.zip"
